@@ -233,18 +233,22 @@ CHECKS["C12"] = dict(
         "Mbox: for ALL messages, senders, recipients, times the appended entry is read back by the mbox(5) reader (written independently from the man page) as exactly the old messages "
         "plus (From_ line, Return-Path + Delivered-To + message with only a partial last line completed); header lines are single lines, the From_ line yields the sanitised sender; "
         "gfrom = documented From_/>From_ test; for ANY number of concurrent deliveries and every interleaving with flock as a mutex the file is always old content + complete entries "
-        "in lock order + the holder's partial output, failed deliveries leave nothing (truncate to the saved length), final file = entries of exactly the exit-0 deliveries. "
+        "in lock order + the holder's partial output, failed deliveries leave nothing (truncate to the length lseek returned under the lock), final file = entries of exactly the exit-0 deliveries; "
+        "after open_append every exit is 0 or 111 and 0 iff a successful fsync of the complete entry happened; the From_ date has exactly 24 characters for years <= 9999 (from the proved Gregorian "
+        "calendar of datetime_tai); a run ending in a successful link has before it open_excl, writes = exactly the content, fsync after the last write, close (inductive). "
+        "Inductive consequences of trace/interleaving invariants: atomic, success, failure, exit codes, link_reach, serial, final, rollback, append, exit_zero_iff; guard restatements tied only by "
+        "trace replay: link_only, truncate_only_locked, rollback_needs_lock, synced_by_fsync. "
         "Tied to the current source by running the real qmail-local main() under the in-memory POSIX simulator (fork redirected so the maildir child runs as a second simulated process): "
         "every crash point x 5 crash resolutions, every call index x {EIO, ENOSPC, short write, EINTR, alarm}, sizes around the 1024-byte buffers, name collisions, 2-3 concurrent "
         "deliveries under enumerated schedules; every trace replayed through the acceptors; gfrom()/myctime() exhaustively/densely; oracle = maildir predicate on concrete crash states, "
         "mboxRead on the concrete final file.",
-   note=NOTE_COMMON + "Modelled, not verified: OS semantics of DESIGN 1.4 (sim.c); (time,pid) unique among live deliveries; if lock_ex() fails the program proceeds unlocked and neither "
-        "serialisation nor roll-back holds (explicit hypothesis, exercised and counted in the evidence); old mbox not ending at a line boundary is outside the round-trip theorem; "
-        "mbox is not crash-atomic (only roll-back on errors is claimed); datetime_tai's calendar arithmetic is tied by correspondence only.",
+   note=NOTE_COMMON + "Modelled, not verified: OS semantics of DESIGN 1.4 (sim.c); (time,pid) unique among live deliveries (the name-uniqueness clause rests on this plus the "
+        "injectivity theorem); files present in new/ before a delivery staying untouched is oracle-only (driver checks every traced name, crash states compared); if lock_ex() fails the program "
+        "proceeds unlocked, and a failing ftruncate is ignored by the code: both are outside the hypothesis Benign of the serial/final/roll-back theorems (exercised and counted in the evidence); old mbox not ending at a line boundary is outside the round-trip theorem; "
+        "mbox is not crash-atomic (only roll-back on errors is claimed); C12_date_24 imports the calendar theorem of Nq/Lemmas/Datetime.lean (C07 worker).",
    technique="Lean 4 proof (acceptor invariants over all traces + crash relation; interleaving-system invariant for unboundedly many processes; list-level round trip through the mbox(5) reader) "
              "+ exact trace correspondence with the real program under a deterministic POSIX simulator (crash, fault and schedule enumeration)",
    design="DESIGN.md §2 C12")
-
 CHECKS["C20"] = dict(
    text="PARTIAL proof. Proved for ALL lengths (Lean, no bound) about models of the code between untrusted input and memory: gen_allocdefs.h readyplus/ready/append, "
         "stralloc_catb/copyb and quote.c doit() with the exact 32-bit arithmetic of __builtin_add/mul_overflow (success => len <= a, a*sizeof = bytes requested without wrap, every store "
